@@ -82,7 +82,7 @@ func runSolver(sd solverDef, file string, timeoutS int) (status, out string, ms 
 	// cvc5 reports errors for z3-specific syntax; z3 may print warnings first
 	for _, l := range strings.Split(out, "\n") {
 		l = strings.TrimSpace(l)
-		if l == "unsat" || l == "sat" || l == "unknown" {
+		if l == "unsat" || l == "sat" || l == "unknown" || l == "timeout" {
 			return l, out, ms
 		}
 	}
